@@ -586,7 +586,7 @@ func (h *hist) attempt() bool {
 	}
 	h.deliver(ex, others, "execute", leader)
 	if h.kyber {
-		h.runKyber(12 * time.Second)
+		h.runKyber(6 * time.Second)
 		done := 0
 		for _, i := range participants {
 			if mustSnapshot(h.w.nodes[i]).raw.cur.State == dkg.Complete {
